@@ -73,6 +73,26 @@ def run(rep: Report, tier: str) -> None:
 	if arth is None or bitw is None or allow is None:
 		raise AnalysisError('LiteralEvaluator.ArthmeticOps/BitwiseOps/AllowOps are no longer constant lists')
 
+	# the evaluator is one instance for the whole run: it must not remember folded values (a value folded for one module/enum must not answer for another)
+	r0 = rep.rule('C17/evaluator-stateless', 'LiteralEvaluator keeps no state besides its reflections and its procedure: no cache/memo/container attribute that could carry a folded value from one expression, enum or module to another', floor=2)
+	init = c.method('__init__')
+	allowed = {'_reflections', '_procedure'}
+	attrs = {}
+	for name_, defs_ in c.methods.items():
+		for f_ in defs_:
+			for n_ in ast.walk(f_.node):
+				if isinstance(n_, (ast.Assign, ast.AnnAssign, ast.AugAssign)):
+					for t_ in (n_.targets if isinstance(n_, ast.Assign) else [n_.target]):
+						if isinstance(t_, ast.Attribute) and isinstance(t_.value, ast.Name) and t_.value.id == 'self':
+							attrs.setdefault(t_.attr, []).append((f_, n_))
+						if isinstance(t_, ast.Subscript) and isinstance(t_.value, ast.Attribute) and isinstance(t_.value.value, ast.Name) and t_.value.value.id == 'self':
+							attrs.setdefault(t_.value.attr, []).append((f_, n_))
+	for a_, sites_ in sorted(attrs.items()):
+		f_, n_ = sites_[0]
+		r0.check(a_ in allowed, f'attr:{a_}', (EVAL, n_.lineno), f'LiteralEvaluator stores `self.{a_}` ({unparse(n_)[:70]}): the evaluator lives for the whole run, so remembered values can answer for a same-named enum member of another module (or of a reloaded module) — folding must be a pure function of the expression', unparse(n_)[:100])
+	for a_ in sorted(allowed - set(attrs)):
+		r0.note(f'expected attribute {a_} not assigned any more')
+
 	r1 = rep.rule('C17/branch-operator-agreement', 'in _calc/_bitwise each `op == tok` branch returns left <OP> right with the operator CPython parses for tok; the chain ends in assert False', floor=10)
 	branch_tokens = {}
 	for fname, ops in (('_calc', arth), ('_bitwise', bitw)):
